@@ -9,6 +9,7 @@ import (
 	"go/types"
 	"os"
 	"strings"
+	"unicode/utf8"
 
 	"golang.org/x/tools/go/ssa"
 )
@@ -54,6 +55,7 @@ type Exec struct {
 	consts  map[*ssa.Const]V
 	intr    map[string]intrinsic
 	pools   map[*V][]V // sync.Pool models
+	slotIDs map[*V]int64
 	depth   int
 
 	// stats
@@ -513,9 +515,40 @@ func (fr *frame) visit(instr ssa.Instruction) int {
 	case *ssa.MakeMap:
 		fr.env[in] = &MapV{}
 	case *ssa.Range:
-		panic(abortPath{"UNSUPPORTED range over map/string"})
+		switch x := fr.get(in.X).(type) {
+		case StrV:
+			if x.T != nil {
+				panic(abortPath{"range over symbolic string"})
+			}
+			fr.env[in] = &rangeIter{str: x.S, isStr: true}
+		case *MapV:
+			it := &rangeIter{}
+			if x != nil {
+				it.keys = append(it.keys, x.Keys...)
+				it.vals = append(it.vals, x.Vals...)
+			}
+			fr.env[in] = it
+		default:
+			panic(abortPath{"UNSUPPORTED range"})
+		}
 	case *ssa.Next:
-		panic(abortPath{"UNSUPPORTED next"})
+		it := fr.get(in.Iter).(*rangeIter)
+		if in.IsString {
+			if it.pos >= len(it.str) {
+				fr.env[in] = Tuple{ex.ts.fls, ex.c64(0), ex.ts.BV(32, 0)}
+			} else {
+				r, sz := utf8.DecodeRuneInString(it.str[it.pos:])
+				fr.env[in] = Tuple{ex.ts.tru, ex.c64(int64(it.pos)), ex.ts.BV(32, uint64(r))}
+				it.pos += sz
+			}
+		} else {
+			if it.pos >= len(it.keys) {
+				fr.env[in] = Tuple{ex.ts.fls, nil, nil}
+			} else {
+				fr.env[in] = Tuple{ex.ts.tru, it.keys[it.pos], it.vals[it.pos]}
+				it.pos++
+			}
+		}
 	case *ssa.FieldAddr:
 		fr.env[in] = ex.fieldAddr(fr.get(in.X).(Ptr), in.Field, in)
 	case *ssa.Field:
@@ -1158,4 +1191,12 @@ func isBoundaryPkg(path string) bool {
 		}
 	}
 	return false
+}
+
+type rangeIter struct {
+	isStr bool
+	str   string
+	keys  []V
+	vals  []V
+	pos   int
 }
